@@ -230,6 +230,9 @@ def c_delete(self: Obj("JSObject"), key: Str):
     check("post.other-data-keys", dict_after_remove(snap, props, key))
     check("post.other-getters", dict_after_remove(snap, getters, key))
     check("post.other-setters", dict_after_remove(snap, setters, key))
+    if order is not None:
+        # the creation-order index forgets the key too: a property created again later is the YOUNGEST one
+        check("post.key-order-forgets-the-key", dict_after_remove(snap, order, key))
     check("frame.nothing-else", heap_unchanged(snap, (props, "dict"), (getters, "dict"), (setters, "dict"), (order, "dict")))
 
 
@@ -600,6 +603,11 @@ PROBES = [
     ("compound-member-assign", "var o = {x: 5}; o.x += 3; o['x'] *= 2; o.x", 16),
     ("new-member-callee", "var ns = {K: function (a) { this.a = a; }}; new ns.K(3).a", 3),
     ("integer-key-order", "var o = {b: 1}; o[1] = 2; Object.keys(o).join()", "1,b"),
+    ("delete-recreate-order", "var o = {b: 2, c: 3}; delete o.b; o.b = 4; Object.keys(o).join()", "c,b"),
+    ("delete-recreate-order-accessor", "var o = {get a() { return 1; }, b: 2, c: 3}; delete o.b; o.b = 4; var ks = []; for (var k in o) ks.push(k); Object.keys(o).join() + '|' + ks.join() + '|' + JSON.stringify(Object.entries(o))",
+     'a,c,b|a,c,b|[["a",1],["c",3],["b",4]]'),
+    ("redefine-accessor-keeps-position", "var o = {a: 1, b: 2}; Object.defineProperty(o, 'a', {get: function () { return 9; }, enumerable: true, configurable: true}); Object.keys(o).join() + '|' + o.a", "a,b|9"),
+    ("delete-accessor-recreate-data", "var o = {get a() { return 1; }, b: 2}; delete o.a; o.a = 5; Object.keys(o).join() + '|' + o.a", "b,a|5"),
 ]
 
 
